@@ -91,7 +91,9 @@ JudgeC16(e) ==
       defs == [i \in 1..Len(ns) |-> IF ns[i].k = "Label" THEN ns[i].lab ELSE ""]
       defined == SeqSet(defs) \ {""}
       dups == { d \in defined : Cardinality({ i \in 1..Len(ns) : defs[i] = d }) >= 2 }
-      used == UNION { {ns[i].jumps, ns[i].calls, ns[i].addrof} : i \in 1..Len(ns) } \ {""}
+      \* the labels a statement names, read off the parsed statement itself (not the implementation's
+      \* jumps_to / calls_to / reads_address_of, which are part of what is being judged)
+      used == { ns[i].lab : i \in { j \in 1..Len(ns) : ns[j].k \in {"JumpLink", "Branch", "LoadAddr"} } } \ {"", "__return__"}
       undef == used \ defined
       c == e.case
       cond == IF undef # {} THEN "undefined-label" ELSE IF dups # {} THEN "duplicate-label"
